@@ -156,6 +156,24 @@ func buildC09(tier string, seed int64) *Family {
 	add("substring('#S1', 1, 0 div 0)", slenBig)
 	add("substring('#S1', -42, 1 div 0)", slenBig)
 	add("substring('#S1', -1 div 0, 1 div 0)", slenBig)
+	// fractional literals written without an integer part
+	add("substring('#S1', .5, 2)", slenBig+1)
+	add("substring('12345', 1.5, .6)", slen)
+	add("substring('#S1', -.5, 2)", slenBig)
+	add("substring('#S1', 2., .75 + .75)", slenBig)
+	// operand independence: a node-set argument (flat path with a predicate, flat path from the
+	// root) evaluated first leaves the context node of the arguments after it alone
+	flatMovers := []string{"*[1]", "a[@a]", "*[. = 'ab']", "/*", "/*/a", "*[last()]", "*[a]/a", "a[1]/@a"}
+	for i, mv := range flatMovers {
+		st := []string{"a", ".", "@a", "*"}[i%4]
+		st2 := []string{"a", ".", "@a", "*"}[(i+1)%4]
+		add("concat("+mv+", "+st+")", slen)
+		add("concat("+mv+", '-', "+st2+")", slen)
+		add(two[i%len(two)]+"("+mv+", "+st+")", slen)
+		add("string-join("+st2+", "+mv+")", slen)
+		add("translate("+mv+", "+st+", 'x')", slen)
+		add("concat(string-length("+mv+"), '|', string-length("+st+"))", slen)
+	}
 	// calls evaluated once per candidate, with arguments that carry iteration state
 	for _, t := range []string{"//*[substring-after((//*)[2], 'a') = 'b']", "//*[contains((//*)[2], 'a')]", "//*[string-length((//*/*)[1]) = 2]", "count(//*[starts-with((//*)[2], 'a')])",
 		"//*[substring-before((//*)[2], 'b') = 'a']", "//*[concat((//*)[2], 'x') = 'abx']", "//*[normalize-space((//*)[2]) = 'a']", "//*[translate((//*)[2], 'a', 'b') = 'bb']",
@@ -209,6 +227,6 @@ func buildC09(tier string, seed int64) *Family {
 		},
 		Rule: "instance = one string-function expression over symbolic strings / doubles / node-set arguments; case = explored symbolic path; non-trivial = Evaluate returned without panic",
 		Outside: []string{"non-ASCII strings", "control characters that are illegal in XML", "strings longer than the bounds", "regular-expression functions (C16)"},
-		PerInst: 3 * time.Minute,
+		PerInst: 8 * time.Minute,
 	}
 }
